@@ -71,3 +71,9 @@ let out_res1_st (st : nat ref) (r : (float * nat) res) =
   (match r with Ok (_, t) -> st := t | _ -> ());
   out_res1 r
 let no_tape : nat -> float = fun _ -> nan
+
+(* planar slab specification (SlabSpec.v): distance, arclength, piece, fraction *)
+let out_planar (o : (((float * float) * nat) * float) option) =
+  match o with
+  | None -> emit "ok inf inf"
+  | Some (((d, a), k), fr) -> emit (vec [d; a; float_of_int (int_of_nat k); fr])
